@@ -185,6 +185,44 @@ CLAIMED["C05"] = dict(
     technique="Lean 4 proof (permanent/matching invariant, termination measure) + state-for-state correspondence",
 )
 
+CLAIMED["C04"] = dict(
+    category="proof",
+    text="recordFrac adds exactly 1 to every idle ensemble column and 0 to busy/ghost columns, only on idle live paths, "
+         "entry by entry the P-matrix value (0 where W is 0, >= 0); writeRows moves exactly the removed vectors into one "
+         "row per replaced path; per treat_output rows+live grows by 1 per idle column; conservation over every history "
+         "(column total = number of steps at which the column was idle; one worker: = cstep); a path number appears in the "
+         "data rows at most once, exactly when replaced, never while live; restart preserves the fractions and the law "
+         "extends across run-persist-restore-run. Matchability of the idle block (C05's invariant) is an explicit "
+         "hypothesis of the conservation theorems. Tie: after every completed step of real REPEX_state histories "
+         "infretis_data.txt and restart.toml [current.frac] are parsed and the law is evaluated on what was written.",
+    design_ref="DESIGN.md §6 C04",
+    technique="Lean 4 proof (column-sum law of the permanent-ratio matrix + bookkeeping invariants) + file-level correspondence",
+)
+CLAIMED["C11"] = dict(
+    category="proof",
+    text="retis_swap_zero: accept iff ACC; junction identity (new [0-] ends with frames 0,1 of the old [0+], new [0+] "
+         "starts with the last two frames of the old [0-], order values, phase points and vel_rev flags stated); both new "
+         "paths valid members within their limits; swap_twice_identity at full strength for any deterministic "
+         "time-reversible engine (the integer leap-frog of the tie is proved reversible); QuanTIS: accept iff xi <= min(1,p) "
+         "with the exact exponent (exp itself outside the model); a [0-] path that ended on the left is rejected '0-L' "
+         "with no engine request and no draw. Tie: real moves through the real propagate/add_to_path with a scripted and "
+         "a reversible engine, exhaustive small pairs, xi grids around p.",
+    design_ref="DESIGN.md §6 C11",
+    technique="Lean 4 proof over frame-level move models + scripted/reversible-engine correspondence",
+)
+CLAIMED["C19"] = dict(
+    category="proof",
+    text="Fixed-point codecs: parse(format x) = x; g96 / extended-xyz / lammpstrj write-read round trips for any atom "
+         "count and id ordering under explicit width guards (with the wide-box and zero-atom boundary counterexamples), "
+         "reverse-velocities negates velocities only, frame k extraction, TRR field layout identical for both byte orders "
+         "and precisions. Editors: mdp edit exact and idempotent for every template; LAMMPS write_for_run total outcome "
+         "characterisation; CP2K tree: exactness for present/absent targets, idempotence under guards, and proved "
+         "counterexamples for six tree-editor defects (open known findings). Tie: real writers/readers/editors on generated "
+         "inputs, byte comparison of written files, the repo's own templates.",
+    design_ref="DESIGN.md §6 C19",
+    technique="Lean 4 proof over decimal fixed-point and token/line models + byte-level differential tie",
+)
+
 NOT_YET = "check not built yet at this commit (work in progress; see DESIGN.md §8 work order)"
 
 
